@@ -162,13 +162,10 @@ def get_type_graph(t: type) -> graphlib.TopologicalSorter[TypeNode]:
                         module=module,
                         is_class=is_class,
                     )
-                    uref = refs.forwardref(
-                        unwrapped,
-                        is_argument=is_argument,
-                        module=module,
-                        is_class=is_class,
-                    )
-                    node = TypeNode(ref, uref, var=var, cyclic=True)
+                    # The reference stands for the named type as a whole: a reference
+                    #   derived from its unwrapped form (e.g. the `Literal[...]` behind
+                    #   an alias) would lose the parameters again.
+                    node = TypeNode(ref, ref, var=var, cyclic=True)
             # Otherwise, add the type to the stack and track that it's been seen.
             else:
                 node = TypeNode(type=child, unwrapped=unwrapped, var=var)
